@@ -35,6 +35,28 @@ type vfGateEnv struct {
 	pendStream map[string]int
 }
 
+// vfGateObserver is a StreamObserver whose callbacks are also gate points (they run inside
+// releaseStream / closeWithError, i.e. inside windows no hook marks).
+type vfGateObserver struct{ sc *vfScope }
+type vfGateObsCtx struct {
+	sc  *vfScope
+	req int
+}
+
+func (o *vfGateObserver) StreamContext(ctx context.Context) StreamObserverContext {
+	id, _ := ctx.Value(vfReqKey{}).(int)
+	return &vfGateObsCtx{sc: o.sc, req: id}
+}
+func (c *vfGateObsCtx) StreamStarted(ObservedStream) { c.sc.tr.Emit("obs_started", "req", c.req) }
+func (c *vfGateObsCtx) StreamAbandoned(ObservedStream) {
+	c.sc.tr.Emit("obs_abandoned", "req", c.req)
+	c.sc.gates.Reach("obs_abandoned", c.req)
+}
+func (c *vfGateObsCtx) StreamFinished(ObservedStream) {
+	c.sc.tr.Emit("obs_finished", "req", c.req)
+	c.sc.gates.Reach("obs_finished", c.req)
+}
+
 func vfNewGateEnv(kind string, proto int, coalesce bool) (*vfGateEnv, error) {
 	e := &vfGateEnv{sc: vfNewScope(), hold: map[string]bool{}, pend: map[string]func(){}, pendStream: map[string]int{}}
 	e.tr = e.sc.tr
@@ -74,8 +96,13 @@ func vfNewGateEnv(kind string, proto int, coalesce bool) (*vfGateEnv, error) {
 	}
 	s, d, err := vfSingleNodeSession(e.node, proto, func(c *ClusterConfig) {
 		c.Timeout = 400 * time.Millisecond
+		c.StreamObserver = &vfGateObserver{sc: e.sc}
 		if coalesce {
 			c.WriteCoalesceWaitTime = 200 * time.Microsecond
+			if strings.HasSuffix(kind, "cancel_while_queued") {
+				// a long coalescing window: the cancellation falls between enqueue and flush
+				c.WriteCoalesceWaitTime = 40 * time.Millisecond
+			}
 		}
 	})
 	if err != nil {
@@ -115,7 +142,8 @@ func (e *vfGateEnv) answerNow(tok string) {
 	}
 }
 
-// start launches one request; returns its id, token and a cancel function.
+// start launches one request; returns its id, token and a cancel function. Fate "buildfail"
+// makes the frame builder fail (the request is never written).
 func (e *vfGateEnv) start(fate string, cancellable bool) (int, string, context.CancelFunc) {
 	id := int(atomic.AddInt64(&e.nextReq, 1))
 	tok := fmt.Sprintf("tok_%d_%s", id, fate)
@@ -133,13 +161,19 @@ func (e *vfGateEnv) start(fate string, cancellable bool) (int, string, context.C
 		var xerr error
 		var echoed string
 		ok, dump := vfWithin(8*time.Second, func() {
-			fr, err := e.conn.exec(ctx, &writeQueryFrame{statement: tok, params: queryParams{consistency: One}}, nil)
+			var fb frameBuilder = &writeQueryFrame{statement: tok, params: queryParams{consistency: One}}
+			if fate == "buildfail" {
+				fb = vfConnFailBuilder{}
+			}
+			fr, err := e.conn.exec(ctx, fb, nil)
 			xerr = err
 			if err == nil {
 				if frame, perr := fr.parseFrame(); perr != nil {
-					xerr = perr
+					xerr = fmt.Errorf("vfgarbled: %w", perr)
 				} else if k, isKs := frame.(*resultKeyspaceFrame); isKs {
 					echoed = k.keyspace
+				} else {
+					xerr = fmt.Errorf("vfgarbled: unexpected frame %T", frame)
 				}
 			}
 		})
@@ -276,6 +310,34 @@ var vfGateScenarios = map[string]func(e *vfGateEnv) string{
 		gf.Release()
 		return ""
 	},
+	// C06: a request that is never written (frame build failure) gives its stream id back; a second
+	// request that is handed exactly that id in the middle of the clean-up must work normally
+	"undo_window": func(e *vfGateEnv) string {
+		if e.proto != 2 {
+			return ""
+		}
+		capacity := e.conn.streams.NumStreams - 1
+		for i := 0; i < capacity-1; i++ {
+			e.start("never", false) // occupy every id but one
+		}
+		for i := 0; i < 3000 && e.conn.AvailableStreams() > 1; i++ {
+			time.Sleep(time.Millisecond)
+		}
+		if e.conn.AvailableStreams() != 1 {
+			return "could not occupy all ids but one"
+		}
+		idA := int(atomic.LoadInt64(&e.nextReq)) + 1
+		gf := e.sc.gates.Arm("obs_finished", idA)
+		e.start("buildfail", false)
+		if !gf.AwaitReached(vfGateWait) {
+			return "obs_finished not reached"
+		}
+		// A is inside releaseStream, its id is free again: B must be able to use it
+		e.start("prompt", false)
+		time.Sleep(30 * time.Millisecond)
+		gf.Release()
+		return ""
+	},
 	// C07 / C01: a request is cancelled while its frame is queued in the write coalescer; whatever the
 	// writer reports must match the byte stream, and the stream id must not be reused while an answer
 	// to that frame can still arrive
@@ -289,10 +351,10 @@ var vfGateScenarios = map[string]func(e *vfGateEnv) string{
 		if !gq.AwaitReached(vfGateWait) {
 			return "q_enq not reached"
 		}
-		cancel()
-		time.Sleep(2 * time.Millisecond) // several coalescing windows
 		gq.Release()
-		time.Sleep(5 * time.Millisecond)
+		time.Sleep(2 * time.Millisecond) // the writer now waits for the flush, 40 ms away
+		cancel()
+		time.Sleep(80 * time.Millisecond) // the flush has happened
 		// enough later requests for the allocator to come back to that id if it was released
 		for i := 0; i < 6; i++ {
 			e.start("prompt", false)
@@ -327,7 +389,7 @@ func TestVfConnGates(t *testing.T) {
 	if vfOutDir() == "" {
 		t.Skip("VF_OUT not set")
 	}
-	names := []string{"closer_before_select", "closer_vs_giveup", "recv_vs_giveup", "late_answer_after_timeout", "two_closers", "write_after_partial", "cancel_while_queued"}
+	names := []string{"closer_before_select", "closer_vs_giveup", "recv_vs_giveup", "late_answer_after_timeout", "two_closers", "write_after_partial", "cancel_while_queued", "undo_window"}
 	k := 0
 	var inconclusive []string
 	for _, name := range names {
